@@ -196,6 +196,26 @@ def decide_and_report(pid, tier, seed, cfg, report, scratch):
         lines.append(f'VIOLATION property={pid} replay={rp}{suffix}')
         lines.append(f'  obligation {o["id"]} failed ({o.get("backend")})' + (f' witness={json.dumps(cex.get("input"))} observed={cex.get("observed")} expected={cex.get("expected")}' if cex else ''))
         exit_code = 1
+    # thorough tier: the replay grids of the property's operations are ALSO run on the real code (bounded exploration next
+    # to the proofs: it cross-checks the executable mirror of the specification against the code the proofs are about)
+    if tier == 'thorough' and exit_code == 0 and cfg.get('standin_ops'):
+        try:
+            w, cases = witness_mod.standin(pid, cfg['standin_ops'], REPO, scratch)
+        except Exception as e:
+            w, cases = None, 0
+            lines.append(f'  (replay grids could not run: {e!r})')
+        report['bounded'].append(dict(id=f'grids[{pid}]', bound=f'replay grids of {len(cfg["standin_ops"])} operations, {cases} cases', status='failed' if w else 'agree',
+                                      kind='bounded', fn='replay grids (thorough tier)'))
+        if w:
+            rp = os.path.join(OUT, 'replays', f'{pid}-grid.json')
+            with open(rp, 'w') as f:
+                json.dump(dict(property=pid, obligation=f'replay grid (thorough tier, bounded): {w["op"]}', counterexample=w, replayed=w.get('replayed'), repo=REPO, bounded=True), f, indent=1)
+            lines.append(f'VIOLATION property={pid} replay={rp}')
+            lines.append(f'  replay grid (bounded): op {w["op"]} witness={json.dumps(w.get("input"))} observed={w.get("observed")} expected={w.get("expected")}')
+            standin_v.append(dict(id=f'grid[{pid}]:{w["op"]}', status='failed'))
+            exit_code = 1
+        else:
+            lines.append(f'  replay grids (bounded, thorough tier): {cases} cases of {len(cfg["standin_ops"])} operations agree with the specification')
     write_evidence(pid, tier, seed, cfg, report, violations + standin_v, known_hit)
     return exit_code, lines
 
